@@ -53,6 +53,37 @@ def hygiene_case(pair, ops, res, secret):
     return None
 
 
+def replica_readonly(pair, r, res):
+    """make_read_only on a replica (already read-only) holding blocks whose oplog entries are not flushed yet: it
+    reports false, and the replica reopens with every block it had accepted ('with all data intact')."""
+    import repl
+    w = repl.build_world(pair, r, nblocks=r.choice([4, 8, 12]))
+    try:
+        for _ in range(r.choice([1, 2, 3, 4, 5])):
+            req = w.honest_request(r, kinds=["block"])
+            if req is None:
+                continue
+            ia, _ = w.prove(**req[1])
+            if not ia.startswith("ok ") or ia == "ok none":
+                continue
+            aa, _ = w.apply(ia[3:])
+            if aa != "ok 1":
+                raise Violation("replica:accept", "honest proof refused: " + aa, "apply")
+            w.note_applied(repl.parse_proof(ia[3:]))
+        ia, _ = pair.do("readonly R")
+        w.log.append("readonly R")
+        if ia != "ok 0":
+            raise Violation("replica:readonly", "make_read_only on a replica answered " + ia, "readonly")
+        w.check_replica("after make_read_only on a replica")
+        if w.r_reopen() != "ok":
+            raise Violation("replica:reopen", "replica does not reopen after make_read_only", "reopen")
+        w.check_replica("after make_read_only on a replica and a reopen")
+        res.count("replica-readonly-reopen")
+    except Violation as v:
+        return dict(key=v.key, what=v.what, replay=dict(world=w.log))
+    return None
+
+
 def crashed_call_then_again(pair, res, secret, tier):
     """a crash at every point inside make_read_only, reopen, and make_read_only AGAIN on the recovered core: once that
     call has returned (true or false) no storage file may contain the secret key, the core is read-only and all data
@@ -124,6 +155,17 @@ def main(tier, seed):
             h = random_history(r, r.choice([2, 4, 7, 11]), reopen_p=0.15, clear_p=0.15)
             pos = r.randrange(1, len(h) + 1) if r.random() < 0.5 else len(h)
             h.insert(pos, ("readonly",))
+            if k % 3 == 2:
+                # ... and the core goes on being used read-only: clears, then make_read_only AGAIN (the documented use
+                # after a crash), then a reopen: "with all data intact" also for the call that changes nothing
+                nblocks = sum(len(o[1]) for o in h[:pos] if o[0] == "append")
+                if nblocks:
+                    tail = []
+                    for _ in range(r.choice([1, 2, 3])):
+                        s0 = r.randrange(nblocks)
+                        tail.append(("clear", s0, s0 + 1))
+                    h = h[:pos + 1] + tail + [("readonly",), ("reopen",)] + h[pos + 1:]
+                    res.count("readonly-clear-readonly-reopen")
             v = hygiene_case(pair, h, res, secret)
             res.add_case(tuple(op_text(o) for o in h), True, sample=[op_text(o) for o in h] if k % 8 == 0 else None)
             if v:
@@ -136,6 +178,13 @@ def main(tier, seed):
                 res.disagreements.extend(pair.disagreements[:2]); pair.disagreements = []
             if len(res.violations) >= 4:
                 break
+        for k in range(8 if tier == "quick" else 120):
+            v = replica_readonly(pair, r, res)
+            res.add_case(("replica-readonly", k), True)
+            if v:
+                res.violations.append(v)
+                break
+            res.disagreements.extend(pair.disagreements[:2]); pair.disagreements = []
         res.violations.extend(crashed_call_then_again(pair, res, secret, tier))
         res.add_case(("crashed-call-then-again",), True)
         res.extra["commands_compared"] = pair.ncmp
